@@ -79,6 +79,10 @@ class Interp:
         return v
 
     def set_content(self, v, new):
+        if isinstance(v, VCell) and getattr(v, 'frozen', False):
+            # the list/dict object is also reachable through a container it was stored in; the value model copies on
+            # store, so a later in-place change would not be seen there (aliasing is outside the subset)
+            raise Unsupported('in-place change of a container object that is also stored inside another container')
         if isinstance(v, VCell):
             if isinstance(new, VMap) and isinstance(v.content, VMap) and v.content.on_key and not new.on_key:
                 new.on_key = v.content.on_key
@@ -631,6 +635,17 @@ class Interp:
                 fr.locals[nm] = ty.fresh(ctx, 'loop!' + nm)
                 continue
             cur = fr.locals.get(nm)
+            if cur is None and nm in mut_names:
+                # a container of an enclosing scope (closure variable) changed in place by the loop body
+                pf = fr.parent
+                while pf is not None and nm not in pf.locals:
+                    pf = pf.parent
+                if pf is not None:
+                    cur = pf.locals[nm]
+                    if isinstance(cur, VCell):
+                        self.havoc_cell(cur, 'loop!' + nm)
+                        continue
+                    raise Unsupported('loop changes closure variable %r of value %r' % (nm, cur), st)
             if cur is None:
                 # not yet bound before the loop: bound inside each iteration before use (checked dynamically)
                 continue
@@ -721,6 +736,14 @@ class Interp:
             g0 = dict(spec.ghost_init(self.clause_env(fr, dict(base_extra))))
         ex = dict(base_extra)
         ex.update(g0)
+        # state at loop entry, for invariants and later clauses that relate to it (s.before(ordinal)): container cells are
+        # copied (their content values are immutable terms), the heap is the per-field array dict
+        snap = {}
+        for k_, v_ in fr.locals.items():
+            snap[k_] = VCell(v_.content, v_.kind) if isinstance(v_, VCell) else v_
+        if not hasattr(fr, 'loop_entry'):
+            fr.loop_entry = {}
+        fr.loop_entry[ordinal] = (snap, ctx.snapshot_heap())
         self.check_inv(spec, ordinal, 'init', fr, ex)
         self.havoc_loop_state(st, fr, spec)
         ghosts = {}
